@@ -122,15 +122,21 @@ def analyse(rec: dict) -> list[dict]:
         finally:
             SqlFluffColumn._get_column_from_subquery = orig
         try:
+            out["seg_term"] = g_seg(seg)
             out["expr"] = "show_analysis (%s) %s (%s)" % (
                 g_env(cfgd.get("DEFAULT_SCHEMA", ""), dialect, bool(provider), md or {}, scalar),
-                "true" if rec.get("silent") else "false", g_seg(seg))
+                "true" if rec.get("silent") else "false", out["seg_term"])
         except ValueError as e:
             out["skip"] = "unserialisable: " + str(e)[:60]
     return outs
 
 
-def run(records: list[dict], shard: int = 30) -> list[dict]:
+EF_HEADER = "From SV Require Import Tree.Extract Tree.TotalDefs.\nOpen Scope string_scope."
+
+
+def run(records: list[dict], shard: int = 30, escape_free: bool = False) -> list[dict]:
+    """escape_free=True additionally evaluates the executable hypothesis of c10_total_on_all_trees_partial (Tree/TotalDefs.v)
+    on every serialised parse tree: res[i]["escape_free"] in {"ef", "not-ef"}"""
     ctx = mp.get_context("fork")
     with ctx.Pool(min(NCPU, 16)) as pool:
         res = [x for part in pool.map(analyse, records, chunksize=4) for x in part]
@@ -138,8 +144,13 @@ def run(records: list[dict], shard: int = 30) -> list[dict]:
     model = coq_eval(HEADER, [res[i]["expr"] for i in idx], shard=shard)
     for i, m in zip(idx, model):
         res[i]["model"] = m
+    if escape_free:
+        efs = coq_eval(EF_HEADER, ['if escape_free (%s) then "ef" else "not-ef"' % res[i]["seg_term"] for i in idx], shard=shard)
+        for i, m in zip(idx, efs):
+            res[i]["escape_free"] = m
     for r in res:
         r.pop("expr", None)
+        r.pop("seg_term", None)
     return res
 
 
